@@ -120,6 +120,9 @@ func efundScenario() *Scenario {
 		one("wreg(PA,fee10,granter=G)", model.Tx{Msgs: []model.Msg{wregMsg("PA")}, Fee: fee(10), FeeGranter: "G"}),
 		one("wreg(PD,fee10,granter=PA)", model.Tx{Msgs: []model.Msg{wregMsg("PD")}, Fee: fee(10), FeeGranter: "PA"}),
 		one("wreg(PC,fee10,granter=PA)", model.Tx{Msgs: []model.Msg{wregMsg("PC")}, Fee: fee(10), FeeGranter: "PA"}),
+		// an explicit fee payer that is not the owner named in the message (both sign): the payer's eFUND is unlocked
+		one("wreg(PD,fee10,payer=PA)", model.Tx{Msgs: []model.Msg{wregMsg("PD")}, Fee: fee(10), FeePayer: "PA"}),
+		one("wreg(PA,fee10,payer=PB)", model.Tx{Msgs: []model.Msg{wregMsg("PA")}, Fee: fee(10), FeePayer: "PB"}),
 		one("wreg(PA,fee10+1tok)", model.Tx{Msgs: []model.Msg{wregMsg("PA")}, Fee: map[string]string{mc.Nund: "10", mc.Tok: "1"}}),
 		one("wreg(PA,fee60)", model.Tx{Msgs: []model.Msg{wregMsg("PA")}, Fee: fee(60)}),
 		// messages of both modules in one transaction: the fee is still unlocked once
@@ -151,7 +154,7 @@ func efundScenario() *Scenario {
 
 func init() {
 	opt := map[Tier]Options{
-		Quick:    {Depth: 4, Budget: 150 * time.Second, ReplayEvery: 16},
+		Quick:    {Depth: 3, Budget: 150 * time.Second, ReplayEvery: 16},
 		Thorough: {Depth: 5, Budget: 15 * time.Minute, ReplayEvery: 16, MaxStates: 500000},
 	}
 	Checks["C04"] = func() *Check {
